@@ -1,4 +1,5 @@
 import PharmpyModel.C10.Unused
+import PharmpyModel.C10.Model
 /-
   C10, last clause: "removing unused parameters and random variables removes exactly those
   without influence on any statement".  Property theorems only (helper lemmas first).
@@ -204,5 +205,61 @@ example :
         [[["O11"], ["O21"], ["O31"]], [["O21"], ["O22"], ["O32"]], [["O31"], ["O32"], ["O33"]]]]
       = [⟨"O11", false⟩, ⟨"O31", false⟩, ⟨"O33", false⟩, ⟨"Z", true⟩] := by
   decide
+
+/-! ### renaming (substitution keyed by a symbol or an amount function) -/
+
+theorem syms_subst1_sym (x z : Sym) (h : z ≠ x) (e : Expr) : x ∉ (Expr.subst1 x (.sym z) e).syms := by
+  unfold Expr.subst1
+  induction e with
+  | lit n => simp [Expr.subst, Expr.syms]
+  | sym s =>
+    simp only [Expr.subst]
+    by_cases hs : s = x
+    · simp [hs, Expr.syms]; exact fun h' => h h'.symm
+    · simp [hs, Expr.syms]; exact fun h' => hs h'.symm
+  | f1 f a iha => simpa [Expr.subst, Expr.syms] using iha
+  | f2 f a b iha ihb =>
+    simp only [Expr.subst, Expr.syms, List.mem_append, not_or]
+    exact ⟨iha, ihb⟩
+  | f3 f a b c iha ihb ihc =>
+    simp only [Expr.subst, Expr.syms, List.mem_append, not_or]
+    exact ⟨⟨iha, ihb⟩, ihc⟩
+
+theorem renameSym_ne (x z y : Sym) (h : z ≠ x) : renameSym x z y ≠ x := by
+  unfold renameSym
+  by_cases hy : y = x
+  · rw [if_pos hy]; exact h
+  · rw [if_neg hy]; exact hy
+
+/-- **Renaming is applied to every statement**: after `subs({x: z})` (z ≠ x) no statement reads
+    `x` any more and no statement defines it — neither an assignment nor the ODE system; so a
+    statement after the ODE system cannot be left reading an amount that nothing defines. -/
+theorem rename_leaves_no_stale_symbol (x z : Sym) (h : z ≠ x) (ss : List Stmt) :
+    ∀ s ∈ renameStmts x z ss, x ∉ s.rhs ∧ x ∉ s.defs := by
+  intro s hs
+  unfold renameStmts at hs
+  obtain ⟨s0, _, rfl⟩ := List.mem_map.mp hs
+  cases s0 with
+  | assign y e =>
+    refine ⟨syms_subst1_sym x z h e, ?_⟩
+    simp only [renameStmt, Stmt.defs, List.mem_singleton]
+    exact fun h' => renameSym_ne x z y h h'.symm
+  | ode a r =>
+    simp only [renameStmt, Stmt.rhs, Stmt.defs, List.mem_map, not_exists, not_and]
+    exact ⟨fun y _ h' => renameSym_ne x z y h h', fun y _ h' => renameSym_ne x z y h h'⟩
+
+/-- The definitions after renaming are the renamed definitions (the ODE system's amounts included). -/
+theorem rename_defs (x z : Sym) (s : Stmt) : (renameStmt x z s).defs = s.defs.map (renameSym x z) := by
+  cases s <;> simp [renameStmt, Stmt.defs]
+
+/-- Witness: leaving the assignments alone while the ODE system is renamed (what a "no key among
+    the free symbols" shortcut does for an amount function) leaves a read of an undefined amount. -/
+theorem rename_skipping_assignments_witness :
+    let ss := [Stmt.ode ["A_CENTRAL(t)"] ["K"], Stmt.assign "F" (.sym "A_CENTRAL(t)")]
+    let skipped := [renameStmt "A_CENTRAL(t)" "AC(t)" (Stmt.ode ["A_CENTRAL(t)"] ["K"]), Stmt.assign "F" (.sym "A_CENTRAL(t)")]
+    renameStmts "A_CENTRAL(t)" "AC(t)" ss = [Stmt.ode ["AC(t)"] ["K"], Stmt.assign "F" (.sym "AC(t)")] ∧
+    ("A_CENTRAL(t)" ∈ (skipped.getD 1 default).rhs ∧ ∀ s ∈ skipped, "A_CENTRAL(t)" ∉ s.defs) := by
+  decide
+
 
 end Pharmpy.C10
